@@ -350,15 +350,38 @@ pub fn kenc_draws(t: &Templates, seed: u64, scn: &Value) -> Value {
             Ok(n)
         }
     }
+    // "lo": the recipient is the lo-th low-order / non-canonical point (no private key exists for it)
+    let lo = scn.get("lo").and_then(|x| x.as_u64()).map(|i| low_order_points()[(i as usize) % 14].to_vec());
+    let r_pub_used: Vec<u8> = lo.clone().unwrap_or_else(|| k.r_pub.to_vec());
     let r = catch_unwind(AssertUnwindSafe(|| {
         let mut out = Vec::new();
         let sk = PrivateKey::try_from(&k.s_priv[..]).unwrap();
         let spk = PublicKey::try_from(&k.s_pub[..]).unwrap();
-        let rpk = PublicKey::try_from(&k.r_pub[..]).unwrap();
+        let rpk = PublicKey::try_from(&r_pub_used[..]).unwrap();
         let mut p = Chunked { d: &plain[..], reads: reads.clone(), i: 0, intr_at };
         key_encrypt(&mut p, &mut out, &sk, &spk, &rpk, None, None, None, AsymFileFormat::V1).map(|_| out)
     }));
     match r {
+        // writing to such a recipient must be refused; if it was not, the file opens from public data alone
+        Ok(Err(_)) if lo.is_some() => json!({"ev":"opened","id":scn.get("id").cloned().unwrap_or(json!("")),"ok":false,"flen":0,"failed_as_allowed":true}),
+        Ok(Ok(file)) if lo.is_some() => {
+            let mut o = json!({"ev":"opened","id":scn.get("id").cloned().unwrap_or(json!("")),"ok":false,"flen":file.len(),"null_recipient":true});
+            if file.len() >= 132 {
+                if let Some((op, k1, k2)) = crate::specread::open_key_header_null(t, &r_pub_used, &file[..132]) {
+                    o["ok"] = json!(true);
+                    o["e_pub"] = json!(hex(&file[4..36]));
+                    o["sender_pub"] = json!(hex(&op.sender_pub));
+                    o["payload"] = json!(hex(&op.payload));
+                    o["file_key"] = json!(hex(&op.file_key));
+                    o["k1"] = json!(hex(&k1));
+                    o["k2"] = json!(hex(&k2));
+                    let (nonces, residue) = record_nonces(t, &file, 132, &op.file_key, &t.must("key_prefix", &Env::new()));
+                    o["nonces"] = json!(nonces);
+                    o["residue"] = json!(residue);
+                }
+            }
+            o
+        }
         Ok(Ok(file)) => {
             let mut o = open_file(t, &json!({"file_hex": hex(&file), "r_priv_hex": hex(&k.r_priv), "id": scn.get("id").cloned().unwrap_or(json!(""))}));
             o["sender_ok"] = json!(o.get("sender_pub").and_then(|x| x.as_str()) == Some(&hex(&k.s_pub)));
@@ -401,9 +424,16 @@ pub fn clear(t: &Templates, seed: u64, scn: &Value) -> Value {
         let mut out = Vec::new();
         let ok = catch_unwind(AssertUnwindSafe(|| {
             if api == "key" {
+                let (ep, epk) = (PrivateKey::try_from(&e_priv[..]).unwrap(), PublicKey::try_from(&e_pub[..]).unwrap());
+                // "eph": which halves of the ephemeral pair the caller passes (a lone half is documented to be ignored)
+                let (a1, a2) = match jstr_or(scn, "eph", "both") {
+                    "priv_only" => (Some(&ep), None),
+                    "pub_only" => (None, Some(&epk)),
+                    "none" => (None, None),
+                    _ => (Some(&ep), Some(&epk)),
+                };
                 key_encrypt(&mut src, &mut out, &PrivateKey::try_from(&s_priv[..]).unwrap(), &PublicKey::try_from(&s_pub[..]).unwrap(),
-                            &PublicKey::try_from(&r_pub[..]).unwrap(), Some(&PrivateKey::try_from(&e_priv[..]).unwrap()),
-                            Some(&PublicKey::try_from(&e_pub[..]).unwrap()), Some(&PayloadKey::new(&payload)), AsymFileFormat::V1).is_ok()
+                            &PublicKey::try_from(&r_pub[..]).unwrap(), a1, a2, Some(&PayloadKey::new(&payload)), AsymFileFormat::V1).is_ok()
             } else {
                 let pw = format!("password-of-identity-{}", ident);
                 kestrel_crypto::encrypt::pass_encrypt(&mut src, &mut out, pw.as_bytes(), payload, kestrel_crypto::PassFileFormat::V1).is_ok()
@@ -456,7 +486,9 @@ pub fn clear(t: &Templates, seed: u64, scn: &Value) -> Value {
         ev["flen_b"] = json!(fb.len());
         ev["nrec"] = json!(nrec);
         ev["framing_ok"] = json!(framing_ok);
-        ev["clear_equal"] = json!(clear_equal);
+        // with a fresh ephemeral key per file the ephemeral field differs by construction: compared only under full injection
+        let injected = api != "key" || jstr_or(scn, "eph", "both") == "both";
+        ev["clear_equal"] = json!(clear_equal || !injected);
         ev["identity_found"] = json!(found);
     }
     ev
